@@ -231,10 +231,20 @@ def ring_encoder(ctx):
     ctx.check(ok, "C38.ring.outputs", fn.site, "RingMultiPriorityEncoder.outputs/valids", found="; ".join(f"{tstr(h.lhs)} <- {tstr(h.rhs)}" for h in outs + vals),
               required="for every k < outputs_count: outputs[k] from the inner encoder's output k (rotated back), valids[k] = its valid k")
     # declared ranges hold the intermediate values
-    for name, need in (("last_corrected", "2 * input_width"), ("moved_out", "2 * input_width")):
-        os_ = [o for o in ex.objects.values() if o.name == name]
-        ok = len(os_) == 1 and pmatch("Signal(range(Q_n))", os_[0].ctor) is not None and lin_equal(pmatch("Signal(range(Q_n))", os_[0].ctor)["n"], ("op", "*", ("c", 2), IW))
-        ctx.check(ok, "C38.ring.ranges", os_[0].site if os_ else fn.site, f"RingMultiPriorityEncoder.{name}", found=tstr(os_[0].ctor) if os_ else "not found", required=f"Signal(range({need})): holds input_width + (input_width - 1)", nontrivial=False)
+    # (identified by role, not by name: the signal corrected under `first > last`, and the signal holding first + inner output)
+    roles = {}
+    for h in hs:
+        if h.lhs is not None and h.lhs[0] == "obj":
+            if mentions(h.rhs, IW) and mentions(h.rhs, LAST):
+                roles["corrected last index"] = h.lhs
+            if mentions(h.rhs, ("a", enc, "outputs")) and mentions(h.rhs, FIRST):
+                roles["rotated-back output"] = h.lhs
+    for role in ("corrected last index", "rotated-back output"):
+        if role not in roles:
+            continue  # no intermediate signal: the value is used as an expression and cannot be truncated
+        o = ex.obj(roles[role])
+        ok = o is not None and pmatch("Signal(range(Q_n))", o.ctor) is not None and lin_equal(pmatch("Signal(range(Q_n))", o.ctor)["n"], ("op", "*", ("c", 2), IW))
+        ctx.check(ok, "C38.ring.ranges", o.site if o else fn.site, f"RingMultiPriorityEncoder.{role}", found=tstr(o.ctor) if o else "no intermediate signal (value used directly)", required="Signal(range(2 * input_width)): holds input_width + (input_width - 1)", nontrivial=False)
 
 
 def definition_in_loop(hs, t):
